@@ -112,6 +112,19 @@ def check_program(arg):
             elif a.is_free != tag.startswith("free"):
                 fails.append(("wrong_format:" + tag, "%s source detected as free=%s" % (tag, a.is_free),
                               dict(std=std, source=text, variant=tag)))
+        # the format is a function of the TEXT, not of the path it is read from nor of what was read from that path
+        # before: the fixed rendering, the free rendering and the fixed one again through one and the same file name
+        pth = os.path.join(d, "same_path.f90")
+        for step, (tag, text) in enumerate((("fixed", src), ("free", canon), ("fixed", src))):
+            with open(pth, "w") as fh:
+                fh.write(text)
+            rdf = fp.FortranFileReader(pth, ignore_comments=True)
+            o2 = fp.parse(text, std=std, rd=rdf)
+            want_mode = "free" if tag == "free" else "fix"
+            if rdf.format.mode != want_mode or o2.kind != "tree" or fp.canon_repr(o2.tree) != fp.canon_repr(ref.tree):
+                fails.append(("same_path_reuse:%d:%s" % (step, tag), "read %d through one path: mode %s (expected %s), %s"
+                              % (step + 1, rdf.format.mode, want_mode, o2.kind), dict(std=std, source=text, variant="same_path")))
+                break
     finally:
         shutil.rmtree(d, ignore_errors=True)
     # free rendering whose first statement starts in columns 1-5 with a character other than c, C, *
